@@ -1,5 +1,5 @@
 #!/usr/bin/env python3
-"""tools/mk_seedprompt.py CNN g h  -> tools/seedprompts/CNN-r4.txt : brief for the next pair of independently written
+"""tools/mk_seedprompt.py CNN g h [round]  -> tools/seedprompts/CNN-r<round>.txt (default 4) : brief for the next pair of independently written
 changes, derived from the round-3 brief: new letters, and the list of sites already used extended by every change in
 seeded/CNN-* (file names from the patch, first line of NOTES.md)."""
 import glob, os, re, sys
@@ -20,6 +20,6 @@ src = re.sub(r"Changes independent reviewers already wrote for this property \(c
              "Changes independent reviewers already wrote for this property (choose DIFFERENT sites and mechanisms; prefer source files, functions and clauses of the property that none of them touched):\n"
              + "\n".join(" - " + u for u in used) + "\n\n", src, flags=re.S)
 src = re.sub(r"for e and f one line each", "for %s and %s one line each" % (a, b), src)
-out = os.path.join(VERIF, "tools/seedprompts/%s-r4.txt" % pid)
+out = os.path.join(VERIF, "tools/seedprompts/%s-r%s.txt" % (pid, sys.argv[4] if len(sys.argv) > 4 else "4"))
 open(out, "w").write(src)
 print(out, len(src))
